@@ -141,3 +141,60 @@ def steer(rng, make, want, tries):
         if k == len(want):
             break
     return best
+
+
+# ----------------------------------------------------------------------------- floating dtypes
+def round_dtype(x, dtype):
+    """a python float that the floating dtype represents exactly (nearest for f16 / f32, nearest-even on the
+    float32 bit pattern for bf16); -inf stays -inf.  Cases carry such floats, so the tensor the harness builds
+    holds exactly the numbers of the case and the oracle can treat them as exact rationals."""
+    import struct
+    if x == float("-inf") or dtype == "f64":
+        return x
+    if dtype == "f32":
+        return struct.unpack("f", struct.pack("f", x))[0]
+    if dtype == "f16":
+        return struct.unpack("e", struct.pack("e", max(-60000.0, min(60000.0, x))))[0]
+    if dtype == "bf16":
+        (b,) = struct.unpack("I", struct.pack("f", x))
+        b = (b + 0x7FFF + ((b >> 16) & 1)) & 0xFFFF0000
+        return struct.unpack("f", struct.pack("I", b))[0]
+    raise ValueError(dtype)
+
+
+# how far apart the scores of one frame may lie before the smallest probability leaves the dtype's normal
+# range (exp(-RANGE) is still a normal number of the dtype, except f16 where softmax works in float32 inside)
+RANGE = {"f16": 12.0, "bf16": 80.0, "f32": 80.0, "f64": 600.0}
+OFFSET = {"f16": [100.0, -100.0, 1000.0], "bf16": [100.0, -1000.0, 30000.0], "f32": [100.0, -1000.0, 30000.0],
+          "f64": [100.0, -1000.0, 1e6, -1e9]}
+
+
+def widen_rows(rng, rows, dtype):
+    """LARGE-MAGNITUDE / WIDE-RANGE scores: the rows of one batch element (lists of V+1 logits) are transformed,
+    row by row, by one of: a large common offset (softmax is shift invariant: nothing may change but the float
+    grid gets coarser), a spread of the row's deviations from its maximum up to the dtype's exponent range (the
+    smallest probabilities come close to the smallest normal number: any detour through a narrower dtype
+    flushes them), a label ruled out by -inf.  Returns the new rows and the set of classes applied."""
+    out, cls = [], set()
+    for row in rows:
+        row = list(row)
+        r = rng.random()
+        fin = [x for x in row if x != float("-inf")]
+        if r < 0.3 or not fin:
+            pass
+        elif r < 0.55:
+            c = rng.choice(OFFSET[dtype])
+            row = [x + c for x in row]
+            cls.add("offset")
+        elif r < 0.85:
+            m = max(fin)
+            span = (m - min(fin)) or 1.0
+            k = RANGE[dtype] * rng.choice([0.1, 0.3, 0.6, 0.9, 1.0]) / span
+            row = [x if x == float("-inf") else m + (x - m) * k for x in row]
+            cls.add("spread")
+        else:
+            if len(fin) > 1:
+                row[rng.choice([i for i, x in enumerate(row) if x != float("-inf")])] = float("-inf")
+                cls.add("-inf")
+        out.append([round_dtype(x, dtype) for x in row])
+    return out, cls
